@@ -317,3 +317,38 @@ Proof.
     apply Nat.mod_divides in Hj0; [|lia]. destruct Hj0 as [c Hc]. subst j.
     assert (c < q) by nia. assert (c + 1 <= q) by lia. nia.
 Qed.
+
+(* ---- a model built from a configuration file (TerminationModelBuilder::build, as of /repo dcfc7c1) has no zero
+        frequency: the hypothesis [wf] of every C10 theorem holds for every configured model ---- *)
+Lemma cast_u64_pos z : (1 <= z)%Z -> cast_u64 z <> 0%N.
+Proof.
+  intros H. unfold cast_u64. destruct (Z.ltb_spec z 0); [lia|]. lia.
+Qed.
+
+Lemma build_wf : forall fuel j t, build fuel j = Ok t -> wf t = true.
+Proof.
+  induction fuel as [|fu IH]; intros j t H; [discriminate|].
+  cbn [build] in H.
+  destruct (Json.jget j "type") as [tv|]; [|discriminate].
+  destruct (Json.as_str tv) as [ty|]; [|discriminate].
+  destruct (String.eqb (to_lowercase ty) "query_runtime").
+  { destruct (Json.jget j "limit") as [dv|]; [|discriminate].
+    destruct (as_duration dv) as [dur| | |]; cbn [bind] in H; try discriminate.
+    destruct (get_config_i64 j "frequency") as [f| | |]; cbn [bind] in H; try discriminate.
+    destruct (Z.ltb_spec f 1); [discriminate|]. injection H as <-.
+    cbn [wf]. apply negb_true_iff, N.eqb_neq. now apply cast_u64_pos. }
+  destruct (String.eqb (to_lowercase ty) "iterations").
+  { destruct (get_config_i64 j "limit"); cbn [bind] in H; try discriminate. injection H as <-. reflexivity. }
+  destruct (String.eqb (to_lowercase ty) "solution_size").
+  { destruct (get_config_i64 j "limit"); cbn [bind] in H; try discriminate. injection H as <-. reflexivity. }
+  destruct (String.eqb (to_lowercase ty) "combined"); [|discriminate].
+  destruct (Json.jget j "models") as [mv|]; [|discriminate].
+  destruct (Json.as_array mv) as [ms|]; [|discriminate].
+  match type of H with bind ?r _ = _ => destruct r as [l| | |] eqn:Hgo end; cbn [bind] in H; try discriminate.
+  injection H as <-. cbn [wf].
+  revert l Hgo. induction ms as [|x r IHr]; intros l Hgo.
+  - injection Hgo as <-. reflexivity.
+  - destruct (build fu x) as [tx| | |] eqn:Hx; cbn [bind] in Hgo; try discriminate.
+    match type of Hgo with bind ?r _ = _ => destruct r as [rest| | |] eqn:Hr end; cbn [bind] in Hgo; try discriminate.
+    injection Hgo as <-. cbn [forallb]. rewrite (IH _ _ Hx). cbn [andb]. exact (IHr _ eq_refl).
+Qed.
